@@ -289,6 +289,6 @@ func c17InBubble(c C17Case, info *kit.Info) *kit.Finding {
 }
 
 func TestC17_Ledger(t *testing.T) {
-	p := kit.Prop[C17Case]{ID: "C17", Name: "Ledger", Quick: 20000, Thorough: 2000000, Gen: genC17(40), Run: runC17(t)}
+	p := kit.Prop[C17Case]{ID: "C17", Name: "Ledger", Quick: 60000, Thorough: 8000000, Gen: genC17(40), Run: runC17(t)}
 	p.Execute(t)
 }
